@@ -135,6 +135,9 @@ def registry():
                    lambda c, s: {"reg": _nic(s)}, samplewise=True, slow=True))
     E.append(Entry("KLDivergenceMaximization", lambda c, s: P.KLDivergenceMaximization(random_state=s), "reg",
                    lambda c, s: {"reg": _nic(s)}, samplewise=True, slow=True))
+    E.append(Entry("KLDivergenceMaximization[monte_carlo]", lambda c, s: P.KLDivergenceMaximization(
+        integration_dict_cross_entropy={"method": "monte_carlo", "n_integration_samples": 5}, random_state=s), "reg",
+        lambda c, s: {"reg": _nic(s)}, samplewise=True, slow=True))
     E.append(Entry("GreedySamplingX", lambda c, s: P.GreedySamplingX(random_state=s), "reg", samplewise=True))
     E.append(Entry("GreedySamplingTarget", lambda c, s: P.GreedySamplingTarget(random_state=s), "reg", lambda c, s: {"reg": _lin(s)}, samplewise=True))
     for g in (False, True):
